@@ -438,7 +438,7 @@ def gen_texts(ctx):
             h = ".".join(str(rng.choice([0, 1, 9, 10, 99, 100, 199, 255, 256, rng.randint(0, 255)])) for _ in range(rng.choice([4, 4, 4, 3, 5])))
         else:
             ws = v6_words_arbitrary(rng)
-            forms = v6_spellings(ws) + ([socket.inet_ntop(socket.AF_INET6, v6_pack(ws))] * 3)
+            forms = v6_spellings(ws) + v6_spellings(ws, rng) + ([socket.inet_ntop(socket.AF_INET6, v6_pack(ws))] * 3)
             h = rng.choice(forms)
             if rng.random() < 0.85:
                 h = "[" + h + "]"
@@ -761,7 +761,9 @@ def correspondence(ctx):
         if scoped:
             ctx.count("scoped_literal_answered_through_table")
         a_sub = a_ipp = None
-        if not s.startswith("@") and (idx % (4 if quick else 2) == 0 or rs.startswith("OK")) and len(s) < 200:
+        # the value "--" is consumed by argparse itself (CPython _get_values strips it: `--to-ns=--` / `--exclude=--`
+        # yield an empty value without ever calling the type= callable), so it says nothing about the readers
+        if not s.startswith("@") and s != "--" and (idx % (4 if quick else 2) == 0 or rs.startswith("OK")) and len(s) < 200:
             a_sub = impl_argparse(w, ["--", s] if idx % 8 else ["--exclude=" + s, "-N"])[0]
             a_ipp = impl_argparse(w, ["--to-ns=" + s, "-N"])[0]
             ctx.count("through_argparse")
@@ -888,7 +890,8 @@ def correspondence(ctx):
                      "(127.0.0.1:70000 -> 4464); unbalanced brackets ('[::1', '::1]') and one trailing newline are accepted; "
                      "'::1:80' is the address ::1:80 (brackets are required for a port); parse_hostport lower-cases a host given with a port, "
                      "raises a bare ValueError for a non-numeric or >65535 port and for unbalanced brackets, and ignores text around a bracketed host; "
-                     "--listen is parsed in cmdline.main, where an ArgumentTypeError from parse_ipport is not caught (traceback instead of usage error)")
+                     "--listen is parsed in cmdline.main, where an ArgumentTypeError from parse_ipport is not caught (traceback instead of usage error); "
+                     "argparse itself swallows the option value '--' (`--to-ns=--` gives an empty list without calling parse_ipport)")
     correspondence_argv(ctx, w)
     ctx.programs = ctx.evaluations
 
